@@ -19,8 +19,6 @@ def gen_listen_case(rng, n, alphabet_only=True):
         r = rng.random()
         k = rng.choice(KEYS)
         if r < 0.28:
-            if k in removed_subscribed:
-                continue
             hid += 1
             c = rng.choice(CONTENTS)
             ops.append("add %s c=%s type=- desc=- hid=%d mark=- time=%d user=-" % (k, c, hid, hid))
@@ -49,9 +47,7 @@ def gen_listen_case(rng, n, alphabet_only=True):
             ops.append("tick")
         elif r < 0.82:
             c = rng.choice(clients)
-            ks = [kk for kk in rng.sample(KEYS, rng.randrange(1, 3)) if kk not in removed_subscribed]
-            if not ks:
-                continue
+            ks = rng.sample(KEYS, rng.randrange(1, 3))
             for kk in ks:
                 subs.setdefault(kk, set()).add(c)
             ops.append("sub %s %s" % (c, " ".join("%s=%s" % (kk, (cur.get(kk) or "-") if rng.random() < 0.7 else "63") for kk in ks)))
@@ -128,14 +124,14 @@ class C10(Prop):
     level = "proof"
     design_ref = "DESIGN.md §7 C10"
     models = [ModelRun("config", gen_listener, lambda c: len(c.ops) >= 4, spec_needs_impl=True,
-                       regions={"sub.after_remove": region_sub_after_remove}, jobs=14,
+                       regions={}, jobs=14,
                        search=lambda rng, b: gen_listener(rng, "quick") * 3, rule=(
         "random interleavings (4-40 ops) of listen (1-3 keys, held md5 current/stale/none, deadline past/future/zero), "
         "tick, subscribe/unsubscribe/client removal and publish/remove over 5 keys and 3 contents on the real ConfigActor; "
         "long-poll answers observed on the real oneshot receivers, NotifyConfig through the hook log; thorough: every "
         "interleaving of <=4 events over one key. oracle: a listener holding a differing md5 is answered at once, every "
         "content change answers all waiting long-polls of the key and notifies all its subscribers, expired long-polls are "
-        "answered by the next tick, nobody is answered twice. Generated cases avoid the region of known finding F13."))]
+        "answered by the next tick, nobody is answered twice. Known finding F13 is attributed per observation: only the missing notification of a subscriber whose subscription was in force when its key was removed, and who has not subscribed again since, belongs to it; a subscriber that subscribes again after the removal must be told like anybody else."))]
     trusted_base = [
         "hand model RNacos/Model/Listener.lean (ghost: the md5s a pending long-poll was registered with)",
         "the 500 ms hb timer of the actor fires within 650 ms (tick op); wall-clock deadlines are past/future only",
